@@ -254,6 +254,20 @@ if os.environ.get("LSPROTOCOL_VERIF_SIM") == "1" and os.environ.get("LSPV_CONF")
                 path, mode, flags = args
                 if isinstance(path, int):
                     return
+                if fault.get("on") == "reread" and str(path).endswith(fault.get("path_suffix", "\0")) and not (isinstance(mode, str) and any(c in mode for c in "wax+")):
+                    # the file changes between two reads of it (another process rewrites it): from the second
+                    # open on, the path holds the alternative content
+                    state["reads"] = state.get("reads", 0) + 1
+                    if state["reads"] == 2:
+                        state["quiet"] = True
+                        try:
+                            with real_open(fault["alt"], "rb") as fa, real_open(os.fspath(path), "wb") as fb:
+                                fb.write(fa.read())
+                        finally:
+                            state["quiet"] = False
+                        log({"ev": "fault", "kind": "reread_changed", "path": str(path)})
+                if state.get("quiet"):
+                    return
                 if fault.get("on") == "read" and str(path).endswith(fault.get("path_suffix", "\0")) and not (isinstance(mode, str) and any(c in mode for c in "wax+")):
                     log({"ev": "fault", "kind": "read_" + fault.get("kind", "eio"), "path": str(path)})
                     raise OSError(errno.EIO if fault.get("kind", "eio") == "eio" else errno.ENOENT, "simulated unreadable model file", str(path))
